@@ -74,9 +74,8 @@ def run(ctx, rep):
         for f in M.dec_out:
             if f(pi, qi, learn) == "err":
                 ms = True
-        for o, v in norm_learn(learn):
-            if origin_call(o) in cn_set:
-                ms = False
+        if M.new_chunk(pi, learn) or any(origin_call(o) in cn_set for o, v in norm_learn(learn)):
+            ms = False
         return ms
     seen2 = run_monitor(P, False, step)
     bad = next(((pi, ms) for (pi, ms) in seen2 if ms and P.gnode(pi) in dec_entries), None)
